@@ -149,8 +149,11 @@ struct Vector {
 
     /// Moves the `value` as a new element to the end of this vector.
     void push_back(T &&value) {
+        // As above: `value` may be an element of this vector, move it out before the
+        // buffer it lives in can be freed.
+        T moved(std::move(value));
         detach(inner->size + 1);
-        new (end()) T(std::move(value));
+        new (end()) T(std::move(moved));
         inner->size++;
     }
 
